@@ -24,7 +24,7 @@ NAMES = ["a", "b", "c", "Ωμ", "x y", "a/b", "d.e", "", "名前", "a"]
 PG_NAMES = ["pg1", "pg2", "pg3"]
 
 MUTATORS = ["create_uid", "remove_many", "group", "object", "data", "values", "rename", "flag", "move", "copy", "remove", "pg_add",
-            "pg_remove_props", "pg_delete", "metadata", "file", "comment"]
+            "pg_remove_props", "pg_delete", "metadata", "file", "comment", "visual", "dhlog"]
 CONTROL = ["reopen", "gc", "hold", "release", "observe"]
 
 
@@ -32,6 +32,9 @@ def diff_cond(a, b) -> str:
     """Discriminating tag for a value difference (keeps known-finding signatures narrow)."""
     if isinstance(a, list) and len(a) == 4 and a[0] == "arr" and a[2] == [1] and isinstance(b, str) and a[3] == [b]:
         return ":one-entry-array-vs-str"
+    if (isinstance(a, list) and isinstance(b, list) and len(a) == 4 and len(b) == 4 and a[0] == b[0] == "arr"
+            and len(a[3]) < len(b[3]) and b[3][:len(a[3])] == a[3] and len(set(map(str, b[3][len(a[3]):]))) == 1):
+        return ":live-array-shorter-than-geometry"
     return ""
 
 
@@ -89,11 +92,20 @@ def op_strategy(kind: str, cfg: dict):
         return st.fixed_dictionaries({"op": st.just("copy"), "who": idx, "to": st.one_of(st.none(), idx),
                                       "children": st.booleans(), "clear": st.booleans(),
                                       "ws": st.sampled_from([0, 0, 1]), "twice": st.sampled_from([False, False, True]),
-                                      "again_after_remove": st.sampled_from([False, False, True])})
+                                      "again_after_remove": st.sampled_from([False, False, True]),
+                                      "again_after_pg_delete": st.sampled_from([False, True])})
+    if kind == "dhlog":
+        return st.fixed_dictionaries({"op": st.just("dhlog"), "obj": idx, "name": name,
+                                      "depths": st.lists(st.integers(0, 12), min_size=1, max_size=4, unique=True),
+                                      "vals": small_ints(4, 4)})
+    if kind == "visual":
+        return st.fixed_dictionaries({"op": st.just("visual"), "obj": idx})
     if kind == "remove":
         return st.fixed_dictionaries({"op": st.just("remove"), "who": idx,
                                       "via": st.sampled_from(["ws", "parent"]), "ws": st.sampled_from([0, 0, 0, 1]),
-                                      "protect": st.integers(0, 4).map(lambda v: v == 0)})
+                                      "protect": st.integers(0, 4).map(lambda v: v == 0),
+                                      # the caller never holds the entity: it is fetched inside the call
+                                      "noref": st.booleans()})
     if kind == "remove_many":
         return st.fixed_dictionaries({"op": st.just("remove_many"), "parent": idx,
                                       "who": st.lists(idx, min_size=2, max_size=3)})
@@ -137,7 +149,7 @@ DEFAULT_CFG = {
     "data_kinds": ["float", "int", "bool", "ref", "text"],
     "weights": {"group": 3, "object": 5, "data": 6, "values": 3, "rename": 2, "flag": 2, "move": 4, "copy": 4,
                 "remove": 4, "pg_add": 4, "pg_remove_props": 2, "pg_delete": 1, "metadata": 1, "file": 1,
-                "comment": 1, "create_uid": 1, "remove_many": 1, "reopen": 3, "gc": 2, "hold": 1, "release": 1, "observe": 1},
+                "comment": 1, "visual": 1, "dhlog": 1, "create_uid": 1, "remove_many": 1, "reopen": 3, "gc": 2, "hold": 1, "release": 1, "observe": 1},
     "ws2": True,
     "prefix": [],
     "prefixes": [],
@@ -915,7 +927,7 @@ class TreeRun:
     def op_rename(self, op):
         wd = self.w
         # the name "UserComments" IS the type marker of comments in the format: not renamed
-        cands = [u for u in wd.nodes if u != wd.root and wd.nodes[u]["cls"] != "CommentsData"]
+        cands = [u for u in wd.nodes if u != wd.root and wd.nodes[u]["cls"] not in ("CommentsData", "VisualParameters")]
         uid = self.pick(cands, op["who"])
         if uid is None:
             return False
@@ -1010,6 +1022,66 @@ class TreeRun:
             wd.adopt(cuid, node, "data")
         self.touch()
         del ent, comments
+        return True
+
+    def op_dhlog(self, op):
+        """A depth log on a plain drillhole: the library adds the DEPTH data, vertices and a property group; the model
+        adopts the hole's subtree as the library shows it right after the call (as for every creation)."""
+        wd = self.w
+        holes = [o for o in wd.of_kind("object") if wd.nodes[o]["cls"] == "Drillhole"]
+        uid = self.pick(holes, op["obj"])
+        if uid is None:
+            return False
+        ent = wd.entity(uid)
+        name = op["name"] or "log"
+        taken = {wd.nodes[c].get("name") for c in wd.nodes[uid]["children"] if c in wd.nodes}
+        if "DEPTH" in taken and not self.program.get("allow_known"):
+            # known finding (C01): a second log adds vertices; the cached arrays of the earlier logs stay short in
+            # memory while a reader pads them
+            self.res.count("excluded_by_finding")
+            return False
+        while name in taken:
+            name += "_"
+        depths = np.asarray(sorted(op["depths"]), dtype=float) / 2.0
+        values = np.asarray((list(op["vals"]) * 2)[: len(depths)], dtype=float)
+        self.parents.add(uid)
+        self.call("Drillhole", ent.add_data, {name: {"depth": depths, "values": values}})
+        parent_uid = wd.nodes[uid]["parent"]
+        wd.nodes[uid] = snap_entity(ent)
+        if wd.nodes[uid]["parent"] != parent_uid:
+            self.fail("C01", "created-parent", "dhlog", "Drillhole", "", "adding a log moved the hole")
+        for child in ent.children:
+            if hasattr(child, "entity_type"):
+                cuid = str(child.uid)
+                if cuid in wd.nodes:
+                    wd.nodes[cuid] = snap_entity(child)
+                else:
+                    wd.adopt(cuid, snap_entity(child), "data")
+        self.res.label("dhlog")
+        self.touch()
+        del ent, child
+        return True
+
+    def op_visual(self, op):
+        """Default visual parameters (an XML text data child the object also references directly)."""
+        wd = self.w
+        cands = [u for u in wd.of_kind("object")
+                 if not any(wd.nodes.get(c, {}).get("name") == "Visual Parameters" for c in wd.nodes[u].get("children", []))]
+        uid = self.pick(cands, op["obj"])
+        if uid is None:
+            return False
+        ent = wd.entity(uid)
+        self.parents.add(uid)
+        new = self.call("VisualParameters", ent.add_default_visual_parameters)
+        if new is None:
+            self.fail("C01", "created-nothing", "visual", wd.nodes[uid]["cls"], "", "add_default_visual_parameters returned None")
+            return True
+        vuid = str(new.uid)
+        node = snap_entity(new)
+        self.check_created(wd, vuid, node, "VisualParameters", uid, "Visual Parameters", "visual")
+        wd.adopt(vuid, node, "data")
+        self.touch()
+        del ent, new
         return True
 
     # ------------------------------------------------------------------ move
@@ -1121,6 +1193,22 @@ class TreeRun:
             if new is not None:
                 self.res.label("copy:again-after-remove")
                 self.adopt_copy(wd, twd, uid, new, to, op["children"], cross)
+        if (op.get("again_after_pg_delete") and cross and kind == "object" and op["children"] and not self.stopped
+                and new is not None and str(new.uid) in twd.nodes and len(twd.nodes[str(new.uid)].get("pgs") or {}) >= 2):
+            # the FIRST property group of the copy is deleted in the target workspace, then the object is copied again:
+            # the first group's identifier is free there once more, the others are in use
+            new_uid = str(new.uid)
+            first = [pg for pg in (new.property_groups or []) if str(pg.uid) in twd.nodes[new_uid]["pgs"]][:1]
+            if first:
+                gone = str(first[0].uid)
+                self.call("PropertyGroup", twd.ws.remove_entity, first[0])
+                del twd.nodes[new_uid]["pgs"][gone]
+                del first
+                gc.collect()
+                new = self.call(cls, src.copy, **kwargs)
+                if new is not None:
+                    self.res.label("copy:again-after-pg-delete")
+                    self.adopt_copy(wd, twd, uid, new, to, op["children"], cross)
         if op.get("twice") and not self.stopped:
             # the same copy again: now the identifiers are taken in the target (fresh ones must be chosen and mapped)
             new = self.call(cls, src.copy, **kwargs)
@@ -1202,6 +1290,11 @@ class TreeRun:
                 if want != have:
                     self.fail("C12", "copy-property-groups", "copy", pred["cls"], "cross" if cross else "same",
                               f"property groups of copy {have} != source mapped {want}")
+                if len(have) < len(want):
+                    # every copied property group has an identifier of its own: fewer groups than the source means
+                    # that two of them were given the same one
+                    self.fail("C06", "copied-property-groups-collapsed", "copy", pred["cls"], "cross" if cross else "same",
+                              f"source has {len(want)} property groups, the copy {len(have)}: {have}")
                 for pg_uid in (lpgs or {}):
                     if not cross and any(pg_uid in (n.get("pgs") or {}) for n in swd.nodes.values()):
                         self.fail("C06", "copy-reuses-pg-uid", "copy", pred["cls"], "same", f"property group uid {pg_uid} reused by a copy in the same workspace")
@@ -1301,7 +1394,34 @@ class TreeRun:
                 self.res.label("refusal")
                 del ent
                 return True
-            self.call(cls, wd.ws.remove_entity, ent)
+            desc = [d for d in wd.descendants(uid)]
+            noref = bool(op.get("noref")) and not ({uid, *desc} & {str(h.uid) for h in self.held})
+            if noref:
+                del ent
+                ent = None
+                try:
+                    wd.ws.remove_entity(wd.ws.get_entity(uuid.UUID(uid))[0])
+                except Exception as exc:
+                    raise OpError(cls) from exc
+                desc = [uid] + desc
+                self.res.label("remove:caller-holds-no-reference")
+            else:
+                self.call(cls, wd.ws.remove_entity, ent)
+            if noref and self.props & {"C05", "C06"}:
+                # the caller referenced neither the entity nor its descendants: the removal itself has to make their
+                # identifiers free (the library runs its own garbage collection for that), before any collection of the
+                # caller's. (When the caller holds the entity, what the entity still references stays alive with it.)
+                held_now = {str(h.uid) for h in self.held}
+                for d in desc:
+                    if d in held_now:
+                        continue
+                    found = wd.ws.get_entity(uuid.UUID(d))
+                    if any(f is not None for f in found):
+                        self.fail("C05" if "C05" in self.props else "C06", "descendant-still-resolves", "remove_ws", cls,
+                                  type(found[0]).__name__, f"right after remove_entity of {uid}, get_entity({d}) returns {found[0]!r}")
+                        break
+                    del found
+                self.res.count("descendants_looked_up_before_caller_gc", len(desc))
         else:
             parent = wd.entity(node["parent"])
             self.call(cls, parent.remove_children, [ent])
